@@ -88,27 +88,29 @@ let () =
             let t = !total in
             if t <= 3 || (t land (t - 1)) = 0 then
               samples := (op, hargs, impl_esc) :: !samples;
+            let verdict = Oracle.oracle_spec propb opb args (bytes_of_raw impl) in
+            let vtxt = (match verdict with None -> "none" | Some true -> "ok" | Some false -> "fail") in
             if model <> impl then begin
               st.mm <- st.mm + 1; incr nmm;
-              if !nmm <= keep then mismatches := (op, hargs, impl_esc, escape model) :: !mismatches
+              if !nmm <= keep then mismatches := (op, hargs, impl_esc, escape model, vtxt) :: !mismatches
             end;
-            (match Oracle.oracle_spec propb opb args (bytes_of_raw impl) with
+            (match verdict with
              | None -> ()
              | Some true -> st.sc <- st.sc + 1
              | Some false ->
                st.sc <- st.sc + 1; st.sf <- st.sf + 1; incr nsf;
-               if !nsf <= keep then specfails := (op, hargs, impl_esc, escape model) :: !specfails)
+               if !nsf <= keep then specfails := (op, hargs, impl_esc, escape model, vtxt) :: !specfails)
           end
       end
     done
   with End_of_file -> ());
   if not only_eval then begin
     let b = Buffer.create 4096 in
-    let case (op, hargs, impl, model) =
-      Printf.sprintf "{\"op\":%s,\"args_hex\":[%s],\"args\":[%s],\"impl\":%s,\"model\":%s}"
+    let case (op, hargs, impl, model, v) =
+      Printf.sprintf "{\"op\":%s,\"args_hex\":[%s],\"args\":[%s],\"impl\":%s,\"model\":%s,\"spec\":\"%s\"}"
         (json_str op) (String.concat "," (List.map json_str hargs))
         (String.concat "," (List.map (fun h -> json_str (unhex h)) hargs))
-        (json_str impl) (json_str model) in
+        (json_str impl) (json_str model) v in
     Buffer.add_string b "{";
     Buffer.add_string b (Printf.sprintf "\"total\":%d,\"distinct_nontrivial\":%d,\"model_mismatches\":%d,\"spec_failures\":%d,"
       !total (Hashtbl.length distinct) !nmm !nsf);
@@ -123,7 +125,7 @@ let () =
     Buffer.add_string b "],\"spec_fail_cases\":[";
     Buffer.add_string b (String.concat "," (List.rev_map case !specfails));
     Buffer.add_string b "],\"samples\":[";
-    Buffer.add_string b (String.concat "," (List.rev_map (fun (op, h, i) -> case (op, h, i, "")) !samples));
+    Buffer.add_string b (String.concat "," (List.rev_map (fun (op, h, i) -> case (op, h, i, "", "")) !samples));
     Buffer.add_string b "]}\n";
     print_string (Buffer.contents b)
   end
